@@ -4,9 +4,9 @@ from common import *
 from pipeline import *
 
 ITEMS = json.load(open(os.path.join(SPEC, "tpl_items.json")))
-VALPOOL = [{"t": "Int", "v": "7"}, {"t": "String", "v": "a?b"}, {"t": "String", "v": "x$1'y"}, {"t": "Int", "v": "42"},
+VALPOOL = [{"t": "Int", "v": "-3"}, {"t": "BigInt", "v": "-9000000000"}, {"t": "Double", "v": "-1.5"}, {"t": "Int", "v": "7"}, {"t": "String", "v": "a?b"}, {"t": "String", "v": "x$1'y"}, {"t": "Int", "v": "42"},
            {"t": "String", "v": "back\\"}, {"t": "Bool", "v": True}, {"t": "String", "null": True}]
-RAND_ITEMS = [i["s"] for i in ITEMS] + ["é", "中x", "'it''s ?'", "'a\\'?'", "\"q\"\"?\"", "[b?]", "]", "[[0]]", "ARRAY[[1,2],[3,4]]", " ", "\t", "::", "->>", "$10", "$01", "?1", "x_1", "1e5"]
+RAND_ITEMS = [i["s"] for i in ITEMS] + ["é", "中x", "'it''s ?'", "'a\\'?'", "\"q\"\"?\"", "[b?]", "]", "[[0]]", "ARRAY[[1,2],[3,4]]", " ", "\t", "::", "->>", "$10", "$01", "?1", "x_1", "1e5", "-", "-", "+", "/*", "--"]
 
 _col = lambda n: {"k": "col", "n": n}
 EXPRPOOL = [_col("a"), {"k": "asenum", "ty": "mood", "e": {"k": "const", "v": {"t": "String", "v": "sad"}}},
